@@ -2,6 +2,7 @@
 import OFV.Core.Json
 import OFV.Model.C19
 import OFV.Model.C19Cost
+import OFV.Model.C19Phys
 import OFV.Spec.C19
 import OFV.Model.C04
 import OFV.Generated.Tables
@@ -61,6 +62,35 @@ def handle (op : String) (j : Json) : Option (Except String Json) :=
       let n := h.length
       let cols := (List.range (2 ^ (2 * n))).map (Spec.applyF (Spec.C19.molOp n (← J.rat (← J.field j "const")) h g))
       .ok (J.ofGQ (Spec.C19.pauliTrace (2 * n) cols 0 0))
+  | "c19.spec.mol_coulomb" => some do
+      -- one_norm_spec_partial: exact-run flag of the Model Jordan-Wigner transform on the spin-orbital matrices and
+      -- the 1-norm of its non-identity strings
+      let h ← ratMat (← J.field j "h"); let g ← ratT4 (← J.field j "g")
+      let n := h.length
+      let c : GQ := ⟨← J.rat (← J.field j "const"), 0⟩
+      let one := Spec.C19.flatReal (2 * n) (Spec.C19.spinOne n h)
+      let two := Spec.C19.flatReal (2 * n) (Spec.C19.spinCoulomb n g)
+      let img := Model.C04.jwDCH Generated.eqTolerance (2 * n) c one two
+      .ok (J.obj [("ok", Json.bool (Model.C04.jwDCHOk Generated.eqTolerance (2 * n) c one two)),
+                  ("norm", J.ofRat (Spec.C19.pauliListNorm img false))])
+  | "c19.phys.dims" => some do
+      let d := autocczDims (← J.nat (← J.field j "l1")) (← J.nat (← J.field j "l2"))
+      .ok (Json.arr #[J.ofNat d.1, J.ofNat d.2.1, J.ofRat d.2.2])
+  | "c19.phys.factories" => some do
+      .ok (J.ofList (fun (f : Factory) => Json.arr #[J.ofNat f.1, J.ofRat f.2]) knownFactories)
+  | "c19.phys.select" => some do
+      let nq ← J.nat (← J.field j "nq"); let nt ← J.nat (← J.field j "nt")
+      let feas ← J.listOf J.bool (← J.field j "feasible")
+      let cands := candidates nq nt
+      .ok (J.obj [("cands", J.ofList (fun (c : Nat × Nat) => J.ofNatList [c.1, c.2]) cands),
+                  ("best", ofOpt (fun (b : Nat × Nat × Nat) => J.ofNatList [b.1, b.2.1, b.2.2]) (selectBest cands feas))])
+  | "c19.spec.select" => some do
+      let cands ← J.listOf (fun c => do let l ← J.natList c; .ok (l.getD 0 0, l.getD 1 0)) (← J.field j "cands")
+      let feas ← J.listOf J.bool (← J.field j "feasible")
+      let res : Option (Nat × Nat × Nat) ← match (← J.field j "res") with
+        | Json.null => .ok none
+        | r => do let l ← J.natList r; .ok (some (l.getD 0 0, l.getD 1 0, l.getD 2 0))
+      .ok (Json.bool (Spec.C19.selectOk cands feas res))
   | "c19.one_norm" => some do
       let h ← ratMat (← J.field j "h"); let g ← ratT4 (← J.field j "g")
       if (← J.bool (← J.field j "woconst")) then .ok (J.ofRat (oneNormWoConst h g))
